@@ -37,7 +37,7 @@ def handler(job):
             elif op == "new_approx_dgm":
                 outs = [PersLandscapeApprox(dgms=[np.array(d, dtype=float).reshape(-1, 2) for d in ins["dgms"]], hom_deg=ins["hom"], start=ins["start"], stop=ins["stop"], num_steps=ins["n"])]
             elif op == "new_approx_vals":
-                outs = [PersLandscapeApprox(values=np.array(ins["vals"], dtype=float), hom_deg=ins["hom"], start=ins["start"], stop=ins["stop"], num_steps=ins["n"])]
+                outs = [PersLandscapeApprox(values=np.array(ins["vals"], dtype=int if ins.get("int") else float), hom_deg=ins["hom"], start=ins["start"], stop=ins["stop"], num_steps=ins["n"])]
             elif op == "add":
                 outs = [A[0] + A[1]]
             elif op == "sub":
